@@ -32,7 +32,7 @@ ELEMS = ["uint8", "int16", "uint32", "int64", "uint24", "int48", "uint128", "flo
 
 @st.composite
 def field_case(draw):
-    o = gens.opts(max_fields=5, max_depth=1, bits=draw(st.booleans()), bits_weight=1, void=False, unions=False, pointers=draw(st.booleans()), signed_flags=False, array_weight=True, long_strings=True, null_structs=True)
+    o = gens.opts(max_fields=5, max_depth=1, bits=draw(st.booleans()), bits_weight=1, void=False, unions=False, pointers=draw(st.booleans()), signed_flags=False, array_weight=True, long_strings=True, null_structs=True, multidim_dyn=True)
     return draw(gens.input_case(o))
 
 
@@ -98,10 +98,16 @@ def ragged_case(draw):
 def refuse_case(draw):
     # elements of fixed size only: for a fixed count of variable-size elements (uleb128 x[4]) the library does not
     # enforce the count and the statement ("fixed-size array") does not clearly demand it - observed, not claimed
-    et = draw(st.sampled_from(["uint8", "int16", "uint32", "uint24", "int64", "double", "enum", "struct"]))
+    et = draw(st.sampled_from(["uint8", "int16", "uint32", "uint24", "int64", "double", "enum", "struct", "flag", "pointer", "row", "row"]))
     n = draw(st.integers(0, 4))
     k = draw(st.integers(0, 6).filter(lambda x: x != n)) if draw(st.integers(0, 3)) else n
-    return {"refuse": True, "elem": et, "n": n, "given": k, "where": draw(st.sampled_from(["field", "standalone", "nested"])), "compiled": draw(st.booleans())}
+    case = {"refuse": True, "elem": et, "n": n, "given": k, "where": draw(st.sampled_from(["field", "standalone", "nested", "union"])), "compiled": draw(st.booleans())}
+    if et == "row":
+        # element = a fixed array (T arr[n][m]): the outer list, or ONE inner row, has the wrong length
+        case["m"] = draw(st.integers(1, 3))
+        case["bad_row"] = draw(st.integers(-1, max(0, k - 1)))  # -1: all rows have m elements
+        case["row_len"] = draw(st.integers(0, 4).filter(lambda x: x != case["m"]))
+    return case
 
 
 # ---------------------------------------------------------------- oracle
@@ -126,6 +132,13 @@ def _compare(case, ctx, T, sem, tnode, data, want, end, label):
         wantd += bytes(end - len(wantd))
     if d != wantd:
         raise Violation("dumps-differs", f"dumps {d.hex()}, reference encoding {wantd.hex()}: {desc()}")
+    # dumping is repeatable and leaves the value alone (the terminator is re-appended to the OUTPUT, not to the array)
+    after = libside.cplain(obj)
+    if after != w:
+        raise Violation("dump-changed-the-value", f"after dumps the object holds {after!r}, before {w!r}: {desc()}")
+    d2 = lib(T.dumps, obj)
+    if isinstance(d2, Err) or d2 != d:
+        raise Violation("second-dump-differs", f"second dumps {d2!r}, first {d.hex()}: {desc()}")
     return obj
 
 
@@ -238,12 +251,23 @@ def _run_refuse(case, ctx, m):
         pre, tname = "enum E : uint16 { A = 1, B = 2 };\n", "E"
     if et == "struct":
         pre, tname = "struct Elem { uint8 a; uint16 b; };\n", "Elem"
-    inner = f"struct Inner {{ {tname} arr[{n}]; uint8 z; }};\n"
-    cs.load(pre + inner + f"struct Root {{ uint8 h; {tname} arr[{n}]; uint8 t; }};\nstruct Outer {{ Inner i; }};", compiled=case["compiled"])
+    if et == "flag":
+        pre, tname = "flag F : uint8 { X = 1, Y = 2 };\n", "F"
+    decl = f"arr[{n}]"
+    if et == "pointer":
+        tname, decl = "uint8", f"*arr[{n}]"
+    if et == "row":
+        tname, decl = "uint16", f"arr[{n}][{case['m']}]"
+    inner = f"struct Inner {{ {tname} {decl}; uint8 z; }};\n"
+    cs.load(pre + inner + f"struct Root {{ uint8 h; {tname} {decl}; uint8 t; }};\nstruct Outer {{ Inner i; }};\nunion U {{ {tname} {decl}; uint8 one; }};", compiled=case["compiled"])
     ET = getattr(cs, tname)
+    AT = cs.Root.fields["arr"].type  # the array type as declared
 
     def elem(i):
-        if et == "enum":
+        if et == "row":
+            ln = case["row_len"] if i == case["bad_row"] else case["m"]
+            return [i + j for j in range(ln)]
+        if et in ("enum", "flag"):
             return ET(i + 1)
         if et == "struct":
             return ET(a=i, b=i * 3)
@@ -256,14 +280,21 @@ def _run_refuse(case, ctx, m):
         r = lib(lambda: cs.Root(h=1, arr=vals, t=2).dumps())
     elif case["where"] == "nested":
         r = lib(lambda: cs.Outer(i=cs.Inner(arr=vals, z=1)).dumps())
+    elif case["where"] == "union":
+        r = lib(lambda: cs.U(arr=vals).dumps())
     else:
-        r = lib(lambda: ET[n].dumps(vals))
-    what = f"{case['where']} {tname}[{n}] dumped with {k} elements (compiled={case['compiled']})"
-    if k != n:
+        r = lib(lambda: AT.dumps(vals))
+    what = f"{case['where']} {tname} {decl} dumped with {k} elements (compiled={case['compiled']})"
+    wrong = k != n
+    if et == "row" and 0 <= case["bad_row"] < k:
+        wrong = True
+        what += f", row {case['bad_row']} having {case['row_len']} instead of {case['m']} elements"
+    if wrong:
         if not isinstance(r, Err):
             raise Violation("wrong-length-accepted", f"{what} was accepted and produced {r.hex()}")
-        ctx.count("refuse:refused:" + ("shorter" if k < n else "longer"))
-        ctx.mark_nontrivial([et, n, k, case["where"]])
+        ctx.count("refuse:refused:" + ("inner-row" if k == n else "shorter" if k < n else "longer"))
+        ctx.count(f"refuse:{et}:{case['where']}")
+        ctx.mark_nontrivial([et, n, k, case["where"], case.get("bad_row"), case.get("row_len")])
         ctx.sample({"what": what, "raised": r.type}, "refuse")
     else:
         if isinstance(r, Err):
